@@ -349,7 +349,9 @@ class Unsigned(BitVector):
         if rhs == 0:
             return Unsigned[result_width]()
 
-        return Unsigned[result_width](lhs - rhs * int(lhs / rhs))
+        # exact remainder with the sign of the dividend (no float division)
+        remainder = abs(lhs) % abs(rhs)
+        return Unsigned[result_width](-remainder if lhs < 0 else remainder)
 
     @_intrinsic
     def _cohdl_rrem_(self, lhs: int | Integer) -> Unsigned:
@@ -363,7 +365,9 @@ class Unsigned(BitVector):
         if rhs == 0:
             return Unsigned[result_width]()
 
-        return Unsigned[result_width](lhs - rhs * int(lhs / rhs))
+        # exact remainder with the sign of the dividend (no float division)
+        remainder = abs(lhs) % abs(rhs)
+        return Unsigned[result_width](-remainder if lhs < 0 else remainder)
 
     @_intrinsic
     def __lshift__(self, rhs: Unsigned | int | Integer) -> Unsigned:
